@@ -4,4 +4,8 @@ V2 == {[x |-> 1, ys |-> 2, flag |-> TRUE], [x |-> 2, ys |-> 3, flag |-> FALSE]}
 V3 == V2 \cup {[x |-> 1, ys |-> 2, flag |-> FALSE]}
 D2 == {"W", "V"}
 D1 == {"W"}
+\* file-valued x: 1 and 11 are the same file (name, content) at two paths, 2 is another file
+DF == {"F"}
+VF == {[x |-> 1, ys |-> 2, flag |-> TRUE], [x |-> 11, ys |-> 2, flag |-> TRUE], [x |-> 2, ys |-> 2, flag |-> TRUE],
+       [x |-> 11, ys |-> 2, flag |-> FALSE]}
 =============================================================================
